@@ -589,10 +589,10 @@ impl Sess {
         Ok(Sess { ctx, spec, cfg, root: root.to_path_buf() })
     }
     pub fn key(&self, k: u16, m: u8, s: u8) -> Result<Suggestion, Panic> {
-        guard(|| self.ctx.get_suggestion_for_key(k, m, s))
+        well_formed(guard(|| self.ctx.get_suggestion_for_key(k, m, s))?)
     }
     pub fn bs(&self, ctrl: bool) -> Result<Suggestion, Panic> {
-        guard(|| self.ctx.backspace_event(ctrl))
+        well_formed(guard(|| self.ctx.backspace_event(ctrl))?)
     }
     pub fn commit(&self, i: usize) -> Result<(), Panic> {
         guard(|| self.ctx.candidate_committed(i))
@@ -669,6 +669,23 @@ impl Sess {
         }
         Ok(last)
     }
+}
+
+/// A `String` that is not UTF-8 can only come out of `unsafe` code; every later use of it is undefined behaviour (the
+/// harness itself would panic while formatting it). It is reported like a panic of the call that returned it.
+fn well_formed(s: Suggestion) -> Result<Suggestion, Panic> {
+    let bad = |t: &str| std::str::from_utf8(t.as_bytes()).is_err();
+    let broken = if s.is_lonely() {
+        bad(s.get_lonely_suggestion())
+    } else {
+        bad(s.get_auxiliary_text()) || s.get_suggestions().iter().any(|c| bad(c))
+    };
+    if broken {
+        let shown = if s.is_lonely() { s.get_lonely_suggestion().as_bytes().to_vec() } else { s.get_auxiliary_text().as_bytes().to_vec() };
+        std::mem::forget(s);
+        return Err(Panic { loc: "riti:returned-text-is-not-utf8".into(), msg: format!("bytes {:02x?}", shown) });
+    }
+    Ok(s)
 }
 
 /// Result of one executed event.
